@@ -9,6 +9,9 @@ INT_RANGE = {'int8': (-128, 127), 'int16': (-2 ** 15, 2 ** 15 - 1), 'int32': (-2
              'uint32': (0, 2 ** 32 - 1)}
 
 
+LONG_AXIS_SHARE = float(os.environ.get('VERIF_LONG_AXIS', '0'))      # share of the compute cases that have a very long axis
+
+
 def gen_shape(rng, maxpix=48, ndim=None):
     if ndim is None:
         ndim = rng.choices([1, 2, 3, 4], weights=[20, 45, 25, 10])[0]
@@ -155,8 +158,40 @@ def gen_crits(rng, k, n):
     return crits
 
 
+def gen_long_axis_case(rng):
+    """an axis longer than 8 / 15 / 16 bits count (a long spectrum, a survey strip): nearly everything below the threshold,
+    a few small clusters of distinct values, some of them beyond coordinate 127 / 255 / 32767 / 65535"""
+    L = rng.choice([130, 260, 300, 32770, 33000, 40000, 65540, 66000, 70000])
+    lay = rng.choice(['1d', '1d', '2xL', 'Lx2'])
+    shape = {'1d': [L], '2xL': [2, L], 'Lx2': [L, 2]}[lay]
+    n = L * (1 if lay == '1d' else 2)
+    k = [0] * n
+    marks = sorted(set([rng.randint(0, 5), L - rng.randint(1, 8)] + [m for m in (126, 254, 32766, 65534) if m + 12 < L] +
+                       [rng.randint(0, L - 12) for _ in range(3)]))
+    vals = list(range(1, 200))
+    rng.shuffle(vals)
+    for m in marks:
+        w = rng.randint(2, 9)
+        for c in range(m, min(L, m + w)):
+            for row in range(1 if lay == '1d' else 2):
+                if rng.random() < 0.85 and vals:
+                    p = c if lay == '1d' else (row * L + c if lay == '2xL' else c * 2 + row)
+                    k[p] = vals.pop()
+    case = {'shape': shape, 'fb': 0, 'k': k, 'dtype': rng.choice(['float64', 'float32', 'int32', 'int16', 'uint8']),
+            'minv': [0, 1], 'mind': rng.choice([0, 0, 3, 20]), 'minn': rng.choice([0, 0, 2, 4]), 'crits': [], 'kind': 'longaxis',
+            'periodic': [], 'adj': 'grid', 'layout': 'C', 'reuse': False, 'pstyle': 'py', 'crit_container': 'list'}
+    if rng.random() < 0.3:
+        case['periodic'] = [0 if lay != '2xL' else 1]
+        case['per_as_list'] = rng.random() < 0.5
+        case['per_spelling'] = rng.choice(['list', 'tuple', 'array'])
+        case['per_negative'] = rng.random() < 0.3
+    return case
+
+
 def gen_compute_case(rng, maxpix=48, force=None):
     force = force or {}
+    if not (set(force) - {'bigint', 'big'}) and rng.random() < LONG_AXIS_SHARE:
+        return gen_long_axis_case(rng)
     shape = force.get('shape') or gen_shape(rng, maxpix, force.get('ndim'))
     n = 1
     for s in shape:
